@@ -302,6 +302,11 @@ var topRules = []topRule{
 		bad: "fn f(x: int) -> int { x }\nfn g(x: str) -> int { 1 }\nfn main() { let h = f; h = g; println(h(1)); }\n"},
 	{name: "list-literal-function-elements", good: "fn f(x: int) -> int { x }\nfn g(x: int) -> int { x + 1 }\nfn main() { let l = [f, g, fn(x: int) -> int { x + 2 }]; println(l[1](1), l[2](1)); }\n",
 		bad: "fn f(x: int) -> int { x }\nfn g(x: str) -> int { 1 }\nfn main() { let l = [f, g]; println(l[0](1)); }\n"},
+	// a singleton the host does not provide starts as the zero value of its type: a type without one cannot be a singleton's
+	{name: "singleton-type-without-default-function", good: "$S = { k: ?fn() -> null, l: [fn() -> null], n: int };\nfn g(s: $S) { println(s.n, s.l.len(), s.k.is_none()); }\nfn main() { g(); }\n",
+		bad: "$S = { k: fn() -> null, n: int };\nfn g(s: $S) { println(s.n); }\nfn main() { g(); }\n"},
+	{name: "singleton-type-without-default-any", good: "$S = { k: ?int, a: { ? }, n: { m: int } };\nfn g(s: $S) { println(s.n.m, s.a.keys(), s.k.is_none()); }\nfn main() { g(); }\n",
+		bad: "$S = { n: { m: any } };\nfn g(s: $S) { println(1); }\nfn main() { g(); }\n"},
 	{name: "duplicate-parameter-singleton-and-normal", good: "$S = { n: int };\nfn f(a: $S, b: int) -> int { a.n + b }\nfn main() { println(f(1)); }\n", bad: "$S = { n: int };\nfn f(a: $S, a: int) -> int { a.n }\nfn main() { println(f(1)); }\n"},
 	{name: "duplicate-parameter-two-singletons", good: "$S = { n: int };\n$T = { m: int };\nfn f(a: $S, b: $T) -> int { a.n + b.m }\nfn main() { println(f()); }\n", bad: "$S = { n: int };\n$T = { m: int };\nfn f(a: $S, a: $T) -> int { a.n }\nfn main() { println(f()); }\n"},
 	{name: "duplicate-parameter", good: "fn f(a: int, b: int) -> int { a + b }\nfn main() { println(f(1, 2)); }\n", bad: "fn f(a: int, a: int) -> int { a }\nfn main() { println(f(1, 2)); }\n"},
